@@ -47,7 +47,7 @@ CFG = {
     "prop_file": "Properties/C07.v",
     "run_modules": ["Verif.C07.Run"],
     "coq_dirs": ["C07"],
-    "n": {"quick": int(os.environ.get("C07_N", "1500")), "thorough": 80000},   # C07_N: smaller runs while testing mutants
+    "n": {"quick": int(os.environ.get("C07_N", "1500")), "thorough": 40000},   # C07_N: smaller runs while testing mutants
     "shard": 100,
     "shrink": False,
     "max_report": 12,
@@ -96,7 +96,7 @@ CFG = {
                  "histories by induction); _defineOwnProperty equals ValidateAndApplyPropertyDescriptor for every well-formed "
                  "descriptor; truncation stops at the greatest non-configurable index; the bookkeeping counters that gate the fast paths are exact; a verified validator check_sort "
                  "accepts only permutations that are sorted and stable whenever the recorded comparator is consistent. Every run "
-                 "replays 1500 (quick) / 80000 (thorough) generated histories on a normal array, a twin forced through "
+                 "replays 1500 (quick) / 40000 (thorough) generated histories on a normal array, a twin forced through "
                  "dense<->sparse transitions (with the last real element as the last converted item, every filler read back) and "
                  "an array-like object, and compares every result and full descriptor dump with S evaluated by vm_compute."),
         "note": ("trusted: Coq kernel + vm_compute; the hand transcription of array.go/array_sparse.go/_defineOwnProperty and of the "
